@@ -176,3 +176,9 @@ def run(ctx):
 
 
 SWEEP = ["concurrent/test_execution_queue.cpp"]
+
+
+# name anchors (validated by tools/rename_sweep.py; a vanished name is exit 2, see core.check_anchor_names)
+ANCHORS = {
+    '_events': ['^babylon::ConcurrentExecutionQueue(<|$)'],
+}
